@@ -600,8 +600,28 @@ func (e *c01env) refresh(o *c01op) {
 	var err error
 	kind := "Refresh-direct"
 	if o.http != 0 {
+		o.pl = int64(e.cfg.genpl) // the origin asks metainfogen for the piece length
+	}
+	// through the origin only a missing blob (GET blob) / missing metainfo (GET metainfo) starts a
+	// download; otherwise the same call is made on the CAStore directly
+	if o.http == 1 {
+		if rd, rerr := e.cas.GetCacheFileReader(nm); !os.IsNotExist(rerr) {
+			if rerr == nil {
+				rd.Close()
+			}
+			o.http = 0
+		}
+	} else if o.http == 2 {
+		var tm metadata.TorrentMeta
+		if merr := e.cas.GetCacheFileMetadata(nm, &tm); !os.IsNotExist(merr) {
+			o.http = 0
+		}
+	}
+	if o.name == 0 {
+		o.http = 0
+	}
+	if o.http != 0 {
 		kind = "Refresh-http"
-		o.pl = int64(e.cfg.genpl)
 		e.be.mu.Lock()
 		e.be.stat[nm] = o.stat
 		e.be.dl[nm] = cb
